@@ -247,3 +247,57 @@ def justify_full_indices(ctx):
                 defs = rd.get(n.id, {}).get(i, set())
                 oke = all(g.nodes[d].kind == "for" and isinstance(g.nodes[d].stmt.iter, _ast.Call) and norm(g.nodes[d].stmt.iter.func) == "enumerate" and len(g.nodes[d].stmt.iter.args) == 1 for d in defs) and defs
                 ctx.check(bool(oke), f.fq, f"defs of {i}", where, f"`{i}` comes from enumerate(...) (non-negative)", f"`{i}` in `{norm(x)}` is not the counter of enumerate(...): it can be negative or stale")
+
+
+def close_expr(fn, expr, keep=(), depth: int = 4):
+    """Closed form of `expr` inside function `fn`: single-definition temporaries inlined, module-level str/int constants
+    substituted, and calls of *simple helpers* (module-level functions / same-class methods whose body is straight-line
+    assignments and one return) replaced by their return expression with the arguments substituted."""
+    import ast as _ast
+    import copy
+    from ..astutil import helper_closed_return, inline, single_defs, substitute_call
+    m = fn.module
+    e = inline(expr, single_defs(fn.node), keep=keep)
+
+    def lookup_callee(call):
+        f = call.func
+        if isinstance(f, _ast.Name):
+            cand = None
+            if fn.parent is not None:
+                cand = m.functions.get(f"{fn.parent.qualname}.<locals>.{f.id}")
+            cand = cand or m.functions.get(f"{fn.qualname}.<locals>.{f.id}") or m.functions.get(f.id)
+            return cand, None
+        if isinstance(f, _ast.Attribute) and isinstance(f.value, _ast.Name) and f.value.id in ("self", "cls") and fn.cls is not None:
+            h = fn.cls.method(f.attr)
+            return h, f.value
+        return None, None
+
+    class T(_ast.NodeTransformer):
+        def __init__(self, d):
+            self.d = d
+
+        def visit_Name(self, node):
+            if isinstance(node.ctx, _ast.Load) and node.id not in keep and m.module_const(node.id) is not None:
+                v = m.module_const(node.id)
+                if isinstance(v, _ast.Constant) and isinstance(v.value, (str, int)) and not isinstance(v.value, bool):
+                    return copy.deepcopy(v)
+            return node
+
+        def visit_Call(self, node):
+            node = self.generic_visit(node)
+            if self.d <= 0:
+                return node
+            callee, recv = lookup_callee(node)
+            if callee is None or callee is fn:
+                return node
+            closed = helper_closed_return(callee.node)
+            if closed is None:
+                return node
+            sub = substitute_call(callee.node, node, closed, receiver=recv)
+            if sub is None:
+                return node
+            return T(self.d - 1).visit(sub)
+
+        def visit_Lambda(self, node):
+            return node
+    return T(depth).visit(copy.deepcopy(e))
